@@ -755,14 +755,9 @@ Example ex_pass : r_verdict (run false s_pass) = Pass.
 Proof. vm_compute. reflexivity. Qed.
 
 (* by verdict_pass_iff the declarative predicate holds of it: all_met is inhabited *)
-Example ex_all_met : exists st0 stF, all_met (cfg0 false) (script_lines (script s_pass)) 0 false st0 stF.
-Proof.
-  destruct (setup (cfg0 false) (b "/w") env0 (parse (script s_pass))) as [st0 ok] eqn:E.
-  assert (ok = true) as -> by (vm_compute in E; inversion E; reflexivity).
-  exists st0. apply verdict_pass_iff.
-  assert (comment (parse (script s_pass)) = script s_pass) as Hc by (vm_compute; reflexivity).
-  pose proof ex_pass as H. unfold run, run_file, run_archive in H. rewrite E in H. rewrite Hc in H. exact H.
-Qed.
+Definition st_pass : state := fst (setup (cfg0 false) (b "/w") env0 (parse (script s_pass))).
+Example ex_all_met : exists stF, all_met (cfg0 false) (script_lines (script s_pass)) 0 false st_pass stF.
+Proof. apply verdict_pass_iff. vm_compute. reflexivity. Qed.
 
 (* a failing script: line 2 is the first unmet demand; line 3 leaves no trace *)
 Definition s_fail := ["mkdir d"; "exists nope"; "mkdir e"].
